@@ -315,6 +315,7 @@ namespace bloch::runtime {
         std::optional<int> argumentsConversionCost(const std::vector<RuntimeTypeInfo>& expected,
                                                    const std::vector<Value>& actual) const;
         bool valueMatchesType(const RuntimeTypeInfo& expected, const Value& actual) const;
+        Value withDeclaredClass(Value v, const RuntimeTypeInfo& declared) const;
         bool argumentsMatchConstructor(const std::vector<Value>& args,
                                        const RuntimeConstructor& candidate) const;
         RuntimeMethod* findMethod(RuntimeClass* cls, const std::string& name,
